@@ -277,6 +277,8 @@ struct TS {
     out_dims_real: Option<(Vec<usize>, Vec<f64>)>,
     loss_real: Option<f64>,
     target_dims: Option<Vec<usize>>,
+    frozen: Vec<[bool; 2]>,
+    eval_iter: u64,
 }
 
 fn build_layers<'a>(specs: &[LayerSpec], params: &Params, acts: &'a [Option<Activation>]) -> Vec<Box<dyn Layer + 'a>> {
@@ -301,10 +303,18 @@ fn cost_fn(c: CostKind) -> CostFunction {
 }
 
 /// One complete iteration on a brand-new model whose parameters are set to `params` (F13).
-fn restart_iteration(specs: &[LayerSpec], cost: CostKind, lr: f64, params: &Params, x: (&[usize], &[f64]), target: (&[usize], &[f64])) -> Option<(f64, Vec<[Obs; 2]>)> {
+fn restart_iteration(specs: &[LayerSpec], cost: CostKind, lr: f64, params: &Params, frozen: &[[bool; 2]], x: (&[usize], &[f64]), target: (&[usize], &[f64])) -> Option<(f64, Vec<[Obs; 2]>)> {
     let r = catch_unwind(AssertUnwindSafe(|| {
         let acts: Vec<Option<Activation>> = specs.iter().map(|s| activation_of(spec_act(s))).collect();
         let mut layers = build_layers(specs, params, &acts);
+        for (l, f) in layers.iter_mut().zip(frozen) {
+            let ps = l.parameters();
+            for pi in 0..2 {
+                if f[pi] {
+                    ps[pi].stop_tracking();
+                }
+            }
+        }
         let gd = GradientDescent::new(lr as Float);
         let cf = cost_fn(cost);
         let loss;
@@ -325,6 +335,10 @@ fn restart_iteration(specs: &[LayerSpec], cost: CostKind, lr: f64, params: &Para
         (loss, after)
     }));
     r.ok()
+}
+
+fn frozen_flags(handles: &[Vec<Array>]) -> Vec<[bool; 2]> {
+    handles.iter().map(|l| [!crate::world::read_flag(&l[0]), !crate::world::read_flag(&l[1])]).collect()
 }
 
 fn obs_params(handles: &[Vec<Array>]) -> (Params, Vec<[Obs; 2]>, bool) {
@@ -424,16 +438,25 @@ pub fn drive(sim: &mut Sim, src: &mut dyn Source, rec: &mut Vec<Ev>) {
         };
         rec.push(ev.clone());
         match &ev {
-            Ev::TrainOpen { layers, cost, lr } => {
+            Ev::NewWorld { smooth } => {
+                let mut cfg = sim.cfg.clone();
+                cfg.regime = if *smooth { crate::sim::Regime::Smooth } else { crate::sim::Regime::Int };
+                let old = std::mem::replace(sim, Sim::new(cfg));
+                sim.violations = old.violations;
+                sim.event_index = old.event_index + 1;
+                sim.status_log = old.status_log;
+                sim.status_log.push(1);
+            }
+            Ev::TrainOpen { layers, cost, lr, opt } => {
                 if !spec_valid(layers) || !lr.is_finite() {
                     skip(sim, &ev, "invalid layer specification");
                     continue;
                 }
                 begin(sim, &ev);
                 end(sim, &StepOut::Done);
-                train_span(sim, src, rec, layers, *cost, *lr);
+                train_span(sim, src, rec, layers, *cost, *lr, *opt);
             }
-            Ev::ModelOpen | Ev::Fwd { .. } | Ev::Bwd { .. } | Ev::Upd | Ev::ModelClose | Ev::TrainClose | Ev::TakeParams { .. } => skip(sim, &ev, "training event outside a training span"),
+            Ev::ModelOpen | Ev::Fwd { .. } | Ev::Bwd { .. } | Ev::Upd | Ev::ModelClose | Ev::TrainClose | Ev::TakeParams { .. } | Ev::Freeze { .. } => skip(sim, &ev, "training event outside a training span"),
             _ => {
                 sim.step(&ev);
             }
@@ -441,7 +464,7 @@ pub fn drive(sim: &mut Sim, src: &mut dyn Source, rec: &mut Vec<Ev>) {
     }
 }
 
-fn train_span(sim: &mut Sim, src: &mut dyn Source, rec: &mut Vec<Ev>, specs: &[LayerSpec], cost: CostKind, lr: f64) {
+fn train_span(sim: &mut Sim, src: &mut dyn Source, rec: &mut Vec<Ev>, specs: &[LayerSpec], cost: CostKind, lr: f64, opt: Option<usize>) {
     let acts: Vec<Option<Activation>> = specs.iter().map(|s| activation_of(spec_act(s))).collect();
     let params0 = spec_params(specs);
     let built = catch_unwind(AssertUnwindSafe(|| build_layers(specs, &params0, &acts)));
@@ -451,7 +474,19 @@ fn train_span(sim: &mut Sim, src: &mut dyn Source, rec: &mut Vec<Ev>, specs: &[L
     };
     let snaps: Rc<RefCell<Vec<Vec<Array>>>> = Rc::new(RefCell::new(Vec::new()));
     let mut taps: Vec<Tap> = inner.into_iter().enumerate().map(|(i, l)| Tap { inner: RefCell::new(l), snaps: snaps.clone(), index: i }).collect();
-    let gd = GradientDescent::new(lr as Float);
+    // a persistent optimizer object may be shared with earlier training spans and with the optimizer actor
+    let (gd_rc, lr): (Rc<GradientDescent>, f64) = match opt {
+        None => (Rc::new(GradientDescent::new(lr as Float)), lr),
+        Some(id) => {
+            let e = sim.optimizers.entry(id).or_insert_with(|| (Rc::new(GradientDescent::new(lr as Float)), lr));
+            (e.0.clone(), e.1)
+        }
+    };
+    if opt.is_some() {
+        sim.fault("F9_persistent_optimizer_object");
+    }
+    sim.train_opt_in_use = opt;
+    let gd: &GradientDescent = &gd_rc;
     let cf = cost_fn(cost);
     let class = format!(
         "{}|{:?}",
@@ -472,7 +507,8 @@ fn train_span(sim: &mut Sim, src: &mut dyn Source, rec: &mut Vec<Ev>, specs: &[L
     sim.train_phase = 1;
     sim.train_first_layer = Some(specs[0].clone());
     sim.train_param_count = specs.len() * 2;
-    let mut ts = TS { layers: specs.to_vec(), cost, lr, phase: Phase::Idle, iter: 0, x: None, target: None, before: None, before_handles_had_grad: false, pending: None, last_batch_dims: None, after_update: false, reference: None, class, out_dims_real: None, loss_real: None, target_dims: None };
+    sim.train_layer_count = specs.len();
+    let mut ts = TS { layers: specs.to_vec(), cost, lr, phase: Phase::Idle, iter: 0, x: None, target: None, before: None, before_handles_had_grad: false, pending: None, last_batch_dims: None, after_update: false, reference: None, class, out_dims_real: None, loss_real: None, target_dims: None, frozen: Vec::new(), eval_iter: 0 };
     while !sim.dead {
         let ev = match src.next(sim) {
             Some(e) => e,
@@ -488,7 +524,7 @@ fn train_span(sim: &mut Sim, src: &mut dyn Source, rec: &mut Vec<Ev>, specs: &[L
                 let close_all;
                 {
                     let refs: Vec<&mut dyn Layer> = taps.iter_mut().map(|t| t as &mut dyn Layer).collect();
-                    let mut model = Model::new(refs, &gd, &cf);
+                    let mut model = Model::new(refs, gd, &cf);
                     close_all = model_span(sim, src, rec, &mut model, &mut ts, &snaps);
                 }
                 // the model is gone: the layers can be read directly
@@ -517,6 +553,23 @@ fn train_span(sim: &mut Sim, src: &mut dyn Source, rec: &mut Vec<Ev>, specs: &[L
                 sim.fault("F10_parameter_handle_taken");
                 end(sim, &StepOut::Done);
             }
+            Ev::Freeze { layer, param, on } => {
+                if *layer >= taps.len() || *param >= 2 {
+                    skip(sim, &ev, "no such parameter");
+                    continue;
+                }
+                begin(sim, &ev);
+                {
+                    let ps = taps[*layer].parameters();
+                    if *on {
+                        ps[*param].stop_tracking();
+                    } else {
+                        ps[*param].start_tracking();
+                    }
+                }
+                sim.fault("F9_parameter_frozen_in_model");
+                end(sim, &StepOut::Done);
+            }
             Ev::TrainClose => {
                 begin(sim, &ev);
                 end(sim, &StepOut::Done);
@@ -530,6 +583,8 @@ fn train_span(sim: &mut Sim, src: &mut dyn Source, rec: &mut Vec<Ev>, specs: &[L
     }
     sim.train_phase = 0;
     sim.train_first_layer = None;
+    sim.train_opt_in_use = None;
+    sim.model_output_iter = None;
 }
 
 /// Returns true when the whole training span must close.
@@ -541,8 +596,8 @@ fn model_span(sim: &mut Sim, src: &mut dyn Source, rec: &mut Vec<Ev>, model: &mu
         };
         rec.push(ev.clone());
         match &ev {
-            Ev::Fwd { dims, vals, keep_output, twice } => {
-                if ts.phase == Phase::AfterBwd || dims.is_empty() || dims.iter().any(|d| *d == 0) || numel(dims) != vals.len() {
+            Ev::Fwd { dims, vals, keep_output, twice, input_slot } => {
+                if dims.is_empty() || dims.iter().any(|d| *d == 0) || numel(dims) != vals.len() {
                     skip(sim, &ev, "forward not legal here");
                     continue;
                 }
@@ -553,9 +608,41 @@ fn model_span(sim: &mut Sim, src: &mut dyn Source, rec: &mut Vec<Ev>, model: &mu
                     skip(sim, &ev, "input shape not admitted by the layer stack");
                     continue;
                 }
+                if ts.phase == Phase::AfterBwd {
+                    // an evaluation forward between backward and update: replaces the model's output,
+                    // must not disturb the pending update
+                    begin(sim, &ev);
+                    let x = mk(dims, vals);
+                    let r = catch_unwind(AssertUnwindSafe(|| model.forward(x)));
+                    match r {
+                        Ok(out) => {
+                            ts.eval_iter += 1;
+                            sim.model_output_iter = Some(1_000_000 + ts.eval_iter);
+                            if *keep_output {
+                                let snap = Obs::of(&out);
+                                sim.held.push(Held { arr: out.clone(), snap, what: "kept model output", node: None, tag: 1_000_000 + ts.eval_iter });
+                            }
+                            sim.fault("F12_evaluation_forward_between_backward_and_update");
+                            end(sim, &StepOut::Done);
+                        }
+                        Err(_) => {
+                            sim.tviol("forward_panicked", &ts.class.clone(), format!("Model::forward panicked on an admitted input {:?}: {}", dims, crate::last_panic()));
+                            sim.dead = true;
+                            end(sim, &StepOut::Dead);
+                            return true;
+                        }
+                    }
+                    continue;
+                }
                 begin(sim, &ev);
                 let x = mk(dims, vals);
                 let xv = to_f64(x.values());
+                let mut input_node = None;
+                if let Some(isl) = input_slot {
+                    let node = sim.new_leaf_node(dims, &xv, "input batch handed to a model");
+                    sim.put(*isl, x.clone(), HInfo { node, tracked: false, keep: false, explicit: Explicit::No });
+                    input_node = Some(node);
+                }
                 let r = catch_unwind(AssertUnwindSafe(|| {
                     if *twice {
                         let _ = model.forward(x.clone());
@@ -592,6 +679,13 @@ fn model_span(sim: &mut Sim, src: &mut dyn Source, rec: &mut Vec<Ev>, model: &mu
                 ts.last_batch_dims = Some(dims.clone());
                 ts.iter += 1;
                 sim.model_output_iter = Some(ts.iter);
+                if let Some(n) = input_node {
+                    sim.model_pins.insert(n, ts.iter);
+                }
+                ts.frozen = frozen_flags(&handles);
+                if ts.frozen.iter().any(|f| f[0] || f[1]) {
+                    sim.fault("F9_iteration_with_frozen_parameter");
+                }
                 // reference output
                 let reference = None::<RefIter>;
                 ts.reference = reference;
@@ -601,7 +695,7 @@ fn model_span(sim: &mut Sim, src: &mut dyn Source, rec: &mut Vec<Ev>, model: &mu
                 ts.target = None;
                 if *keep_output {
                     let snap = Obs::of(&out);
-                    sim.held.push(Held { arr: out.clone(), snap, what: "kept model output", node: None });
+                    sim.held.push(Held { arr: out.clone(), snap, what: "kept model output", node: None, tag: ts.iter });
                     sim.train.kept_outputs += 1;
                     sim.fault("F12_old_output_retained");
                 }
@@ -686,7 +780,7 @@ fn model_span(sim: &mut Sim, src: &mut dyn Source, rec: &mut Vec<Ev>, model: &mu
                 let tv = ts.target.clone().unwrap();
                 let td = ts.target_dims.clone().unwrap();
                 // relational: the same iteration on a fresh model restarted from the snapshot (F13)
-                let restart = if sim.cfg.monitors { restart_iteration(&ts.layers, ts.cost, ts.lr, &before, (&xd, &xv), (&td, &tv)) } else { None };
+                let restart = if sim.cfg.monitors { restart_iteration(&ts.layers, ts.cost, ts.lr, &before, &ts.frozen, (&xd, &xv), (&td, &tv)) } else { None };
                 let mut restart_params = None;
                 if let Some((rl, rp)) = restart {
                     sim.fault("F13_restart_from_snapshot");
@@ -709,8 +803,9 @@ fn model_span(sim: &mut Sim, src: &mut dyn Source, rec: &mut Vec<Ev>, model: &mu
                             for pi in 0..2 {
                                 let (g, m) = &rf.grads[li][pi];
                                 let mmax = m.iter().fold(0.0f64, |a, b| a.max(*b));
-                                let want: Vec<f64> = l[pi].1.iter().zip(g).map(|(o, gg)| o - lrf * gg).collect();
-                                let tol: Vec<f64> = l[pi].1.iter().zip(m).map(|(o, mm)| tol_k() * eps() * (o.abs() + lrf.abs() * (mm + mmax + 1.0)) + 1e-300).collect();
+                                let fr = ts.frozen.get(li).map(|f| f[pi]).unwrap_or(false);
+                                let want: Vec<f64> = l[pi].1.iter().zip(g).map(|(o, gg)| if fr { *o } else { o - lrf * gg }).collect();
+                                let tol: Vec<f64> = l[pi].1.iter().zip(m).map(|(o, mm)| if fr { 0.0 } else { tol_k() * eps() * (o.abs() + lrf.abs() * (mm + mmax + 1.0)) + 1e-300 }).collect();
                                 pair.push((want, tol));
                             }
                             let b = pair.pop().unwrap();
@@ -743,7 +838,7 @@ fn model_span(sim: &mut Sim, src: &mut dyn Source, rec: &mut Vec<Ev>, model: &mu
                 end(sim, &StepOut::Done);
                 return true;
             }
-            Ev::TrainOpen { .. } | Ev::ModelOpen | Ev::TakeParams { .. } => skip(sim, &ev, "not legal while a model session is open"),
+            Ev::TrainOpen { .. } | Ev::ModelOpen | Ev::TakeParams { .. } | Ev::Freeze { .. } => skip(sim, &ev, "not legal while a model session is open"),
             _ => {
                 sim.step(&ev);
             }
